@@ -86,6 +86,38 @@ def connGraph (input : String) : Graph := if input.startsWith "dx|" then didexch
 def persistedOk (g : Graph) (tr : List String) (p : String) : Bool :=
   p == "-" || tr.getLast? == some p || edge g (tr.getLast?.getD g.start) p
 
+def connRank (s : String) : Nat :=
+  match s with
+  | "null" => 0 | "invited" => 1 | "requested" => 2 | "responded" => 3 | "completed" => 4 | _ => 5
+
+def insertRank (x : String) : List String → List String
+  | [] => [x]
+  | y :: ys => if connRank x ≤ connRank y then x :: y :: ys else y :: insertRank x ys
+
+/-- the same announcements in the order of the graph -/
+def byRank (tr : List String) : List String := tr.foldr insertRank []
+
+def connTraces (implOut : String) : Option (List String × List String) :=
+  let tail := (implOut.splitOn "|").getLast?.getD ""
+  match tail.splitOn " " with
+  | [i, e, "rec", _, _] =>
+    let tr (s : String) : List String :=
+      let body := (s.drop 2).toString
+      if body == "-" then [] else body.splitOn ","
+    some (tr i, tr e)
+  | _ => none
+
+/-- open finding C09-F4: the post-state event of a state is emitted AFTER that state's action (the send); when the
+    peer's answer is processed before the emission, subscribers hear the later state first. The announcements are those
+    of a valid path, in another order. -/
+def announcedOutOfOrder (input implOut : String) : Bool :=
+  let g := connGraph input
+  match connTraces implOut with
+  | some (ti, te) =>
+    (!validTrace g ti && validTrace g (byRank ti) && validTrace g te) ||
+    (!validTrace g te && validTrace g (byRank te) && validTrace g ti)
+  | none => false
+
 def oracleConn (input implOut : String) : String :=
   let g := connGraph input
   let tail := (implOut.splitOn "|").getLast?.getD ""
@@ -97,7 +129,8 @@ def oracleConn (input implOut : String) : String :=
     let st (s : String) : String := (s.drop 2).toString
     let ti := tr i
     let te := tr e
-    if !validTrace g ti then "PATH-VIOLATION inviter:" ++ ",".intercalate ti
+    if announcedOutOfOrder input implOut then "ANNOUNCED-OUT-OF-ORDER i:" ++ ",".intercalate ti ++ " e:" ++ ",".intercalate te
+    else if !validTrace g ti then "PATH-VIOLATION inviter:" ++ ",".intercalate ti
     else if !validTrace g te then "PATH-VIOLATION invitee:" ++ ",".intercalate te
     else if !persistedOk g ti (st ri) then "PERSISTED-STATE-OFF-THE-PATH inviter=" ++ st ri
     else if !persistedOk g te (st re) then "PERSISTED-STATE-OFF-THE-PATH invitee=" ++ st re
@@ -208,7 +241,7 @@ def overlapsObserved : List String → List String → List String → Bool
   | _, _, _ => false
 
 def tags (input : String) (impl : String := "") : String :=
-  if isConnProto input then "" else
+  if isConnProto input then (if announcedOutOfOrder input impl then "C09-F4" else "") else
   match input.splitOn "|" with
   | [proto, opsS] =>
     match setup proto with
